@@ -123,6 +123,12 @@ pub fn gen_spline_case<T: Flt>(rng: &mut Rng, o: &SplineOpts) -> (Spec1<T>, Labe
         overlay_polynomial(rng, &x, &mut data, deg);
         dname = format!("polynomial-deg{deg}");
     }
+    // ... or cancel exactly: every lane antisymmetric about the middle row (an odd function on
+    // a symmetric grid), or lanes in mirrored pairs - the sum over the data is exactly zero
+    if rng.chance(0.06) && n_lanes >= 1 {
+        overlay_zero_sum(rng, &mut data);
+        dname = "zero-sum".into();
+    }
     // ... or all lanes are copies of lane 0 (handed over as a broadcast view where views are used)
     let broadcast = n_lanes > 1 && rng.chance(0.06);
     if broadcast {
@@ -228,6 +234,36 @@ pub fn sprinkle_specials<T: Flt>(rng: &mut Rng, data: &mut ArrayD<T>) -> usize {
         }
     }
     n
+}
+
+/// make the data cancel exactly: rows mirrored with opposite sign about the middle (mode 0) or
+/// odd lanes the negatives of even lanes (mode 1, needs >= 2 lanes)
+pub fn overlay_zero_sum<T: Flt>(rng: &mut Rng, data: &mut ArrayD<T>) {
+    let n = data.shape()[0];
+    let lanes = data.len() / n.max(1);
+    if lanes == 0 || n == 0 {
+        return;
+    }
+    let mut flat: Vec<T> = data.iter().copied().collect();
+    if lanes >= 2 && lanes % 2 == 0 && rng.chance(0.5) {
+        for r in 0..n {
+            for l in (0..lanes).step_by(2) {
+                flat[r * lanes + l + 1] = T::of(0.0) - flat[r * lanes + l];
+            }
+        }
+    } else {
+        for r in 0..n / 2 {
+            for l in 0..lanes {
+                flat[(n - 1 - r) * lanes + l] = T::of(0.0) - flat[r * lanes + l];
+            }
+        }
+        if n % 2 == 1 {
+            for l in 0..lanes {
+                flat[(n / 2) * lanes + l] = T::of(0.0);
+            }
+        }
+    }
+    *data = ArrayD::from_shape_vec(data.raw_dim(), flat).unwrap();
 }
 
 /// lane l becomes c0 + c1 x + .. + c_deg x^deg with small dyadic coefficients (evaluated in f64,
